@@ -142,12 +142,21 @@ func c09Random(rng *rand.Rand, n int, _ []string) {
 				outs = append(outs, fmt.Sprintf("(%d %d)", size, act))
 			}
 			sx.Case("c09.scan", sx.List(in, sx.List(rs...), sx.Int(sc), sx.List(texts...)), sx.List(outs...))
+			// Tier 2: per (rule set, start condition) the proved-sound bisimulation certificate between these tables and
+			// the derivative vectors of the active rules (all texts, not the sampled ones)
+			if stats["compiled"]%c09BisimEvery == 0 {
+				stats["bisim_cases"]++
+				sx.Case("c09.bisim", sx.List(in, sx.List(rs...), sx.Int(sc)), "proved")
+			}
 		}
 	}
 	for k, v := range stats {
 		sx.Stat(k, v)
 	}
 }
+
+// every c09BisimEvery-th compiled rule set gets the (more expensive) bisimulation certificate
+const c09BisimEvery = 1
 
 // c09.show prints the tables of the rule set given as arguments (pattern = action i+2), for examples in Props/C09.v.
 func init() {
